@@ -127,6 +127,58 @@ Theorem C17_shape_preserved : forall vs b e : list nat,
 Proof. exact shape_preserved. Qed.
 Print Assumptions C17_shape_preserved.
 
+(* shapes, for ANY reachable entry state (auto-update off, outdated cached parameters that still hold values
+   of other shapes, ...): with tfp's sampler decomposed as the code uses it - sample shape
+   value_shape[: len(value_shape) - len(batch_shape) - len(event_shape)] taken from the value current at the
+   draw and from the distribution built on the REFRESHED parameters - and tfp's law
+   shape(sample(sh, seed)) = sh ++ batch_shape ++ event_shape, simulate does not raise and every visited
+   variable whose current value ends in batch_shape ++ event_shape of its distribution at the newly drawn
+   values of its ancestors keeps the shape of its current value ([shapes_kept]) *)
+Theorem C17_shape_preserved_stale :
+  forall (V F S : Type) (interp : F -> list V -> V) (dflt : V) (g : graph F)
+         (shape_of : V -> list nat) (bshape : F -> list V -> list nat) (eshape : F -> list nat)
+         (draw : F -> S -> list V -> list nat -> V),
+  (forall f sd ps sh, shape_of (draw f sd ps sh) = sh ++ bshape f ps ++ eshape f) ->
+  wf g ->
+  forall (rs : rstate V) (order : list (dinfo F)) (skip : list nat) (seeds : list S),
+  RInv V F interp dflt g rs ->
+  let ds := combine (filter (selected skip) order) seeds in
+  Forall (dinfo_ok F g) (map fst ds) -> Forall (tgt_value F g) (map fst ds) -> order_ok g (map fst ds) ->
+  let r := simulate_lit interp dflt (tfp_sample shape_of bshape eshape draw) RefreshInputs g rs order skip seeds in
+  snd r = false
+  /\ shapes_kept V F S interp dflt g shape_of bshape eshape draw ds (vals (cur rs)) (vals (cur (fst r))).
+Proof. exact simulate_shapes. Qed.
+Print Assumptions C17_shape_preserved_stale.
+
+(* sample shapes hoisted out of the drawing loop (computed from the values shown at entry): on graph A in
+   shape semantics, auto-update off, x and y assigned vectors of length 3 without update (the cached c
+   between them still a scalar), y goes from (3,) to (3, 3); on the updated entry state the variants agree *)
+Theorem C17_hoisted_shape_refuted :
+  (let r := simulate_hoisted sh_id sh_bshape sh_eshape sh_draw [] (lit shi []) (values_all shi [])
+                             gA rsS_stale [DX; DY] [] [0; 0] in
+   snd r = false /\ getv [] (vals (cur (fst r))) 1 = [3] /\ getv [] (vals (cur (fst r))) 5 = [3; 3])
+  /\ simulate_hoisted sh_id sh_bshape sh_eshape sh_draw [] (lit shi []) (values_all shi [])
+                      gA rsS_fresh [DX; DY] [] [0; 0]
+     = simulate_lit shi [] sh_sample RefreshInputs gA rsS_fresh [DX; DY] [] [0; 0].
+Proof. exact hoisted_witness. Qed.
+Print Assumptions C17_hoisted_shape_refuted.
+
+Example C17_example_shapes_hypotheses :
+  let ds := combine (filter (selected []) [DX; DY]) [0; 0] in
+  wf gA /\ RInv (list nat) nat shi [] gA rsS_stale
+  /\ (exists k, outdated gA (cur rsS_stale) k = true)
+  /\ Forall (dinfo_ok nat gA) (map fst ds) /\ Forall (tgt_value nat gA) (map fst ds)
+  /\ order_ok gA (map fst ds)
+  /\ (forall f sd ps sh, sh_id (sh_draw f sd ps sh) = sh ++ sh_bshape f ps ++ sh_eshape f).
+Proof. exact exS_hyps. Qed.
+Print Assumptions C17_example_shapes_hypotheses.
+
+Example C17_example_shapes_kept :
+  let r := simulate_lit shi [] sh_sample RefreshInputs gA rsS_stale [DX; DY] [] [0; 0] in
+  snd r = false /\ getv [] (vals (cur (fst r))) 1 = [3] /\ getv [] (vals (cur (fst r))) 5 = [3].
+Proof. exact exS_kept. Qed.
+Print Assumptions C17_example_shapes_kept.
+
 (* the visiting order: fix 94cdd67.  Without the edge Dist -> value node, y before x is a topological
    order of the simulation graph of graph B (a Calc reads Var.value_node directly); it is not a valid
    order and the repaired simulate (auto-update on) draws y from the old x.  With the edge it is excluded. *)
